@@ -127,6 +127,18 @@ def run(ctx):
                 ctx.violation("generated:" + "+".join(sorted(k for k in c["hist"] if not k.startswith("c:")))[:60],
                               f"{c['script'].strip()} returns different datapoints under different engine settings",
                               {"case": exprk.case_json(c), "signatures": {str(k): str(v) for k, v in sigs.items()}})
+        # operator zoo: every template on small data under 2 settings, and on scaled-up data (thousands of datapoints) under 3
+        import zoo
+        for scale, kbs in ((1, (knobs[0], knobs[2])), (400 if q else 4000, (knobs[0], knobs[1], knobs[-1]))):
+            for name, script, st, zdps in zoo.cases(ctx.rng, n_draws=1, scale=scale, skip=("cross_join",) if scale > 1 else ()):
+                if scale > 1 and q and ctx.rng.random() < 0.5:
+                    continue
+                sigs = {kb: sig_hash(with_knobs(kb, tmp, lambda: engine.run_case(script, st, zdps))) for kb in kbs}
+                ctx.count(("zoo", name, scale))
+                hist["zoo"] = hist.get("zoo", 0) + len(kbs)
+                if len(set(sigs.values())) > 1:
+                    ctx.violation(f"zoo:{name}:scale{scale}", f"{script.strip()[-160:]} returns different datapoints under different engine settings (scale {scale})",
+                                  {"template": name, "script": script, "scale": scale, "signatures": {str(k): str(v) for k, v in sigs.items()}})
         # corpus sample
         done = 0
         for c in corpus.enumerate_cases(rng=ctx.rng):
@@ -146,7 +158,7 @@ def run(ctx):
     ctx.cov["distribution"] = {"runs_per_knob": hist, "big_rows": n_big, "corpus_cases": done}
     ctx.cov["rule"] = ("fixed large scripts (binary, clauses, set ops, aggregation, joins, analytic) over two datasets of %d/%d rows under each knob setting "
                        "(threads, in-memory/file-backed, memory limit, temp directory) + one repeated run; generated small scripts and corpus scripts under "
-                       "3 / 2 settings; results compared as hashes of sorted canonical datapoints; runs that do not complete (out of memory) are outside the "
+                       "3 / 2 settings; every operator-zoo template on small data (2 settings) and on data scaled to thousands of datapoints (3 settings); results compared as hashes of sorted canonical datapoints; runs that do not complete (out of memory) are outside the "
                        "property; distinct = (script, knob)" % (n_big, int(n_big * 0.7)))
     ctx.oblige("predicate evaluated on the engine: all completed runs agree", True)
     ctx.assumptions.append("DuckDB's parallel/spilling execution only reorders datapoints (the oracle of Props/C15.v) — exercised, not proved")
